@@ -4,7 +4,11 @@ CONSTANTS
   Qs = {1, 2, 3, 8}
   Rots = {0, 1, 3}
   ExportOn = TRUE
+  MaxKL = 2
+  KLFullN = 4
+  KLSamples = 2
+  KLMaxN = 6
 INIT MInit
 NEXT MNext
-INVARIANTS RefAdmissible EndToEnd ExportInv
+INVARIANTS RefAdmissible EndToEnd SkipRejected ExportInv
 CHECK_DEADLOCK FALSE
